@@ -294,6 +294,66 @@ def check_scoping(run: common.Run, node: Tuple, env: Dict[str, Tuple[str, Any]],
             key = f"{r}-scope-{localize.describe(c)}{'-has-operand' if is_has else ''}-{'collision' if collides(c) else 'no-collision'}"
             report(key, {"src": src, "node": node, "env": {k: list(v) for k, v in env.items()}, "route": r}, f"{ir.render(c)[:140]}: reference {exp} got {str(got)[:120]}")
     run.sample({"src": src, "outer": {k: v[1] for k, v in env.items() if k in ("x", "y")}}, bucket="scope")
+    check_alpha(run, node, env, report)
+
+
+def alpha_rename(node: Tuple, mapping: Optional[Dict[str, str]] = None, counter: Optional[List[int]] = None) -> Tuple:
+    """The same program with every macro's iteration variable renamed to a fresh name (v_0, v_1, ...), occurrences inside the body included: by the
+    statement ("shadows an outer variable of the same name inside the macro body only") this changes no outcome."""
+    mapping = mapping or {}
+    counter = counter if counter is not None else [0]
+    t = node[0]
+    if t == "var":
+        return ("var", mapping.get(node[1], node[1]))
+    if t == "macro":
+        recv = alpha_rename(node[1], mapping, counter)
+        fresh = f"v_{counter[0]}"
+        counter[0] += 1
+        body = alpha_rename(node[4], dict(mapping, **{node[3]: fresh}), counter)
+        return ("macro", recv, node[2], fresh, body)
+    if t in ("lit", "raw", "dotvar"):
+        return node
+    out = []
+    for part in node:
+        if isinstance(part, tuple) and part and isinstance(part[0], str) and part[0] in ("lit", "var", "macro", "bin", "un", "cond", "index", "select", "has", "call", "method", "list", "map", "paren", "msg", "raw", "dotvar", "dotcall"):
+            out.append(alpha_rename(part, mapping, counter))
+        elif isinstance(part, tuple):
+            out.append(tuple(alpha_rename(q, mapping, counter) if isinstance(q, tuple) and q and isinstance(q[0], str) and q[0] in ("lit", "var", "macro", "bin", "un", "cond", "index", "select", "has", "call", "method", "list", "map", "paren", "msg", "raw", "dotvar", "dotcall") else
+                             (tuple(alpha_rename(z, mapping, counter) if isinstance(z, tuple) and z and isinstance(z[0], str) and z[0] in ("lit", "var", "macro", "bin", "un", "cond", "index", "select", "has", "call", "method", "list", "map", "paren") else z for z in q) if isinstance(q, tuple) else q)
+                             for q in part))
+        else:
+            out.append(part)
+    return tuple(out)
+
+
+def check_alpha(run: common.Run, node: Tuple, env: Dict[str, Tuple[str, Any]], report) -> None:
+    """Metamorphic: renaming the iteration variables apart changes nothing - with every outer name bound, and with the colliding outer names only DECLARED
+    (an annotation, no value), where a binding made for the macro body must not outlive the body."""
+    if not collides(node):
+        return
+    renamed = alpha_rename(node)
+    src, src2 = ir.render(node), ir.render(renamed)
+    if src == src2:
+        return
+    from celpy import celtypes as _ct
+
+    colliding = sorted({n[3] for n in ir.walk(node) if n[0] == "macro" and n[3] in env})
+    variants = [("all-bound", gen.bind_env(env), None)]
+    if colliding:
+        partial = {k: v for k, v in env.items() if k not in colliding}
+        variants.append(("declared-only", gen.bind_env(partial), {k: _ct.IntType for k in colliding}))
+    for label, binds, ann in variants:
+        for r in ("I", "C"):
+            run.tick()
+            run.event("alpha-renaming:" + label)
+            a = cel.evaluate(src, binds, r, annotations=ann)
+            b = cel.evaluate(src2, binds, r, annotations=ann)
+            if a != b and not (a[0] == "error" and b[0] == "error"):
+                if r == "C" and any(n[0] == "has" for n in ir.walk(node)):
+                    continue  # the recorded compiled-has() finding can make either side an error
+                report(f"{r}-scope-alpha-renaming-changes-outcome-{label}", {"src": src, "node": node, "env": {k: list(v) for k, v in env.items()}, "route": r, "alpha": label},
+                       f"{src[:120]} -> {outcome.short(a)[:60]} but with fresh variable names {src2[:120]} -> {outcome.short(b)[:60]}")
+                return
 
 
 # --- macro variable vs package-qualified binding: which one wins is not determined by the statement (both of its rules apply);
